@@ -231,3 +231,26 @@ def default_none_env(func):
         if isinstance(d, ast.Constant) and d.value is None:
             env[p_.arg] = d
     return env
+
+
+def ranges_over(it, coll):
+    """does the iterable (text or AST) hand out one item per element of the collection `coll` (text)?
+    enumerate / zip with other sequences / reversed / sorted / list / tuple / iter of it, and
+    _each(E, it) (one E per element) all do"""
+    if isinstance(it, str):
+        if it == coll:
+            return True
+        try:
+            it = ast.parse(it, mode='eval').body
+        except SyntaxError:
+            return False
+    if norm(it) == coll:
+        return True
+    if isinstance(it, ast.Call) and isinstance(it.func, ast.Name):
+        if it.func.id in ('enumerate', 'reversed', 'sorted', 'list', 'tuple', 'iter') and it.args:
+            return ranges_over(it.args[0], coll)
+        if it.func.id == 'zip':
+            return any(ranges_over(a, coll) for a in it.args)
+        if it.func.id == '_each' and len(it.args) == 2:
+            return ranges_over(it.args[1], coll)
+    return False
